@@ -35,6 +35,25 @@ class NodeNotFoundError(Exception):
             % key)
 
 
+class CircularDependencyError(Exception):
+    """A set of dependencies in a graph can't all be satisfied.
+
+    This is raised when ordering a graph whose dependencies form a cycle,
+    since no ordering of the nodes could respect all of them.
+    """
+
+    def __init__(self, keys):
+        """Initialize the error.
+
+        Args:
+            keys (list of unicode):
+                The keys of the nodes involved in the circular dependency.
+        """
+        super(CircularDependencyError, self).__init__(
+            'A circular dependency was found between: %s'
+            % ', '.join('"%s"' % key for key in keys))
+
+
 class Node(object):
     """A node in a graph.
 
@@ -268,6 +287,10 @@ class DependencyGraph(object):
         Returns:
             list of Node:
             The list of ndoes, in dependency order.
+
+        Raises:
+            CircularDependencyError:
+                The dependencies form a cycle, and can't all be satisfied.
         """
         assert self._finalized
 
@@ -313,12 +336,30 @@ class DependencyGraph(object):
                         #
                         # We'll mark that we've processed this, so we don't
                         # re-scan the dependencies again.
+                        #
+                        # Any dependency that we're still in the middle of
+                        # processing is an ancestor of this node, meaning
+                        # the dependencies form a cycle.
+                        for dep in node.dependencies:
+                            if dep in processed and dep not in visited:
+                                raise CircularDependencyError(
+                                    [node.key, dep.key])
+
                         stack.append(node)
                         stack += sorted(node.dependencies,
                                         key=lambda dep: dep.insert_index,
                                         reverse=True)
 
                         processed.add(node)
+
+        if len(result) != len(self._nodes):
+            # Some nodes could not be reached from any leaf node. That's
+            # only possible if they're part of (or required by) a cycle.
+            raise CircularDependencyError(sorted(
+                key
+                for key, node in six.iteritems(self._nodes)
+                if node not in result_set
+            ))
 
         return result
 
